@@ -93,9 +93,12 @@ func newArchived(raw string, hops int, ctype, body string, s Settings) *models.I
 // requested as assets of the page and the URLs handed over as outlinks.
 func observe(c Case, doc string) (assets, outlinks []string, note string) {
 	s := c.Set
-	cfg := &config.Config{CaptureAlternatePages: s.Alt, DisableAssetsCapture: s.DAC, MaxHops: s.MaxHops, UserAgent: "verif-c07", MaxRedirect: 20}
+	cfg := &config.Config{CaptureAlternatePages: s.Alt, DisableAssetsCapture: s.DAC, MaxHops: s.MaxHops, UserAgent: "verif-c07", MaxRedirect: 20, UseSeencheck: true}
 	if s.Disable != "" {
 		cfg.DisableHTMLTag = []string{s.Disable}
+	}
+	if s.ExcludeFirst {
+		cfg.ExcludeString = []string{fmt.Sprintf("r%dx0", c.ID)} // the token of the first planted reference (slot 0)
 	}
 	config.VerifSet(cfg)
 	domainscrawl.Reset()
@@ -212,6 +215,24 @@ func evaluate(c Case, verbose bool) (string, []Result) {
 		cd := carrierByName(c.Plants[r.Plant].Carrier)
 		x := Result{Plant: r.Plant, Slot: r.Slot, Carrier: cd.Name, Ref: r.Text, Want: r.Want}
 		x.Demand, x.Reason = demand(cd, c.Set, c.Plants[r.Plant].Form)
+		if c.Set.ExcludeFirst && strings.HasPrefix(r.Tok+".", fmt.Sprintf("r%dx0.", c.ID)) {
+			// out of the operator's scope: an asset must not be requested; what happens to an excluded outlink when
+			// it comes back as a seed is not this property's business
+			x.Demand, x.Reason = "", ""
+			if cd.Kind != "outlink" {
+				x.Demand, x.Reason = "mustnot", "exclude-string"
+			}
+		}
+		if c.Same && x.Demand == "mustnot" {
+			// the URL is named twice: "must not be requested" on account of one carrier holds only if the other
+			// carrier (of the same kind) does not demand it
+			for _, r2 := range refs {
+				cd2 := carrierByName(c.Plants[r2.Plant].Carrier)
+				if d2, _ := demand(cd2, c.Set, c.Plants[r2.Plant].Form); r2.Tok == r.Tok && r2.Plant != r.Plant && (cd2.Kind == "outlink") == (cd.Kind == "outlink") && d2 == "must" {
+					x.Demand, x.Reason = "", ""
+				}
+			}
+		}
 		observed := assets
 		what := "asset"
 		if cd.Kind == "outlink" {
